@@ -122,12 +122,48 @@ theorem lineBlocks_getLast (b : Nat → GBlock) (cn : Nat → GConn) :
     rw [List.getLast?_cons_cons, this]
     congr 2; omega
 
+theorem getLast_map_range' (f : Nat → Rat) (n : Nat) : ((List.range' 0 (n + 1)).map f).getLast? = some (f n) := by
+  simp [List.getLast?_map, List.getLast?_range']
+
+theorem head_map_range' (f : Nat → Rat) (n : Nat) : ((List.range' 0 (n + 1)).map f).head? = some (f 0) := by
+  simp [List.range'_succ]
+
+/-- the three axis walks of `block_spacings` on a lattice are lines (any sizes, also single-block
+    directions) -/
+theorem Lattice.axisLines {T : TGrid} {mv : Rat} {nx ny nz : Nat} {blk : Nat → Nat → Nat → GBlock}
+    {cx cy cz : Nat → Nat → Nat → GConn} (L : Lattice T mv nx ny nz blk cx cy cz)
+    (it jt : Nat) (hit : it ≤ nx) (hjt : jt ≤ ny) (htop : topmostBlock T (some mv) = .ok (blk it jt 0))
+    (c0 c1 : P3) (hc0 : (blk it jt 0).centre = some c0) (hc1 : (blk it jt nz).centre = some c1) (hdown : c1.z ≤ c0.z) :
+    AxisLines T (blk 0 0 nz) mv (rowSteps (fun i => blk i 0 nz) (fun i => cx i 0 nz) 0 nx)
+      (rowSteps (fun j => blk 0 j nz) (fun j => cy 0 j nz) 0 ny)
+      (rowSteps (fun l => blk it jt l) (fun l => cz it jt l) 0 nz) (blk it jt 0) := by
+  have RX := L.rowX 0 nz (by omega) (by omega)
+  have RY := L.rowY 0 nz (by omega) (by omega)
+  have RZ := L.rowZ it jt hit hjt
+  refine ⟨L.adm 0 0 nz (by omega) (by omega) (by omega), L.adm it jt 0 hit hjt (by omega),
+    RX.isLine_row, RY.isLine_row, htop, RZ.isLine_row, ?_, ?_, ?_, ?_⟩
+  · rw [rowSteps_length]; have := RX.length_le; omega
+  · rw [rowSteps_length]; have := RY.length_le; omega
+  · rw [rowSteps_length]; have := RZ.length_le; omega
+  · have hl := lineBlocks_getLast (fun l => blk it jt l) (fun l => cz it jt l) nz 0
+    simp only [Nat.zero_add] at hl
+    unfold firstBelowLast
+    rw [hl]
+    simp only [lineBlocks, List.head?_cons, hc0, hc1]
+    have : ¬ (c0.z < c1.z) := not_lt.2 hdown
+    simp [this]
+
+theorem rowSteps_ne_nil (b : Nat → GBlock) (cn : Nat → GConn) (n : Nat) (hn : 0 < n) : rowSteps b cn 0 n ≠ [] := by
+  cases n with
+  | zero => omega
+  | succ n => simp [rowSteps]
+
 /-- `block_spacings` on a three-dimensional lattice whose connection distances are half the block
     widths `wx i`, `wy j`, `wz l` returns exactly these widths, from the origin block `blk 0 0 nz`
     (first row, first column, bottom layer) and whichever top-layer block `blk it jt 0` is topmost. -/
 theorem blockSpacings_lattice {T : TGrid} {mv : Rat} {nx ny nz : Nat} {blk : Nat → Nat → Nat → GBlock}
     {cx cy cz : Nat → Nat → Nat → GConn} (L : Lattice T mv nx ny nz blk cx cy cz)
-    (hx : 0 < nx) (hy : 0 < ny) (hz : 0 < nz) (hlen : nx ≤ T.blocks.length ∧ ny ≤ T.blocks.length ∧ nz ≤ T.blocks.length)
+    (hx : 0 < nx) (hy : 0 < ny) (hz : 0 < nz)
     (it jt : Nat) (hit : it ≤ nx) (hjt : jt ≤ ny) (htop : topmostBlock T (some mv) = .ok (blk it jt 0))
     (c0 c1 : P3) (hc0 : (blk it jt 0).centre = some c0) (hc1 : (blk it jt nz).centre = some c1) (hdown : c1.z ≤ c0.z)
     (wx wy wz : Nat → Rat)
@@ -139,30 +175,8 @@ theorem blockSpacings_lattice {T : TGrid} {mv : Rat} {nx ny nz : Nat} {blk : Nat
       distAt (cz it jt l) (blk it jt (l + 1)).name = wz (l + 1) / 2) :
     blockSpacings T (blk 0 0 nz) mv =
       .ok ((List.range' 0 (nx + 1)).map wx, (List.range' 0 (ny + 1)).map wy, (List.range' 0 (nz + 1)).map wz) := by
-  have RX := L.rowX 0 nz (by omega) (by omega)
-  have RY := L.rowY 0 nz (by omega) (by omega)
-  have RZ := L.rowZ it jt hit hjt
-  have A : AxisLines T (blk 0 0 nz) mv (rowSteps (fun i => blk i 0 nz) (fun i => cx i 0 nz) 0 nx)
-      (rowSteps (fun j => blk 0 j nz) (fun j => cy 0 j nz) 0 ny)
-      (rowSteps (fun l => blk it jt l) (fun l => cz it jt l) 0 nz) (blk it jt 0) := by
-    refine ⟨L.adm 0 0 nz (by omega) (by omega) (by omega), L.adm it jt 0 hit hjt (by omega),
-      RX.isLine_row, RY.isLine_row, htop, RZ.isLine_row, ?_, ?_, ?_, ?_⟩
-    · rw [rowSteps_length]; exact hlen.1
-    · rw [rowSteps_length]; exact hlen.2.1
-    · rw [rowSteps_length]; exact hlen.2.2
-    · have hl := lineBlocks_getLast (fun l => blk it jt l) (fun l => cz it jt l) nz 0
-      simp only [Nat.zero_add] at hl
-      unfold firstBelowLast
-      rw [hl]
-      simp only [lineBlocks, List.head?_cons, hc0, hc1]
-      have : ¬ (c0.z < c1.z) := not_lt.2 hdown
-      simp [this]
-  have nex : ∀ (b : Nat → GBlock) (cn : Nat → GConn) (n : Nat), 0 < n → rowSteps b cn 0 n ≠ [] := by
-    intro b cn n hn
-    cases n with
-    | zero => omega
-    | succ n => simp [rowSteps]
-  rw [blockSpacings_3d T _ _ mv _ _ _ A (nex _ _ nx hx) (nex _ _ ny hy) (nex _ _ nz hz)]
+  have A := L.axisLines it jt hit hjt htop c0 c1 hc0 hc1 hdown
+  rw [blockSpacings_3d T _ _ mv _ _ _ A (rowSteps_ne_nil _ _ nx hx) (rowSteps_ne_nil _ _ ny hy) (rowSteps_ne_nil _ _ nz hz)]
   have sx := rowSizes (fun i => blk i 0 nz) (fun i => cx i 0 nz) wx nx (fun i hi => (hwx i hi).1) (fun i hi => (hwx i hi).2)
     nx 0 (by omega) (by omega)
   have sy := rowSizes (fun j => blk 0 j nz) (fun j => cy 0 j nz) wy ny (fun j hj => (hwy j hj).1) (fun j hj => (hwy j hj).2)
@@ -171,6 +185,69 @@ theorem blockSpacings_lattice {T : TGrid} {mv : Rat} {nx ny nz : Nat} {blk : Nat
     nz 0 (by omega) (by omega)
   simp only [prevOf] at sx sy sz
   rw [sx, sy, sz]
+
+/-- two-dimensional lattice, a single block along direction 1 (`nx = 0`): the missing spacing is
+    recovered from the origin block's volume `wx0 * wy 0 * wz nz` -/
+theorem blockSpacings_lattice_2d_x {T : TGrid} {mv : Rat} {ny nz : Nat} {blk : Nat → Nat → Nat → GBlock}
+    {cx cy cz : Nat → Nat → Nat → GConn} (L : Lattice T mv 0 ny nz blk cx cy cz)
+    (hy : 0 < ny) (hz : 0 < nz)
+    (jt : Nat) (hjt : jt ≤ ny) (htop : topmostBlock T (some mv) = .ok (blk 0 jt 0))
+    (c0 c1 : P3) (hc0 : (blk 0 jt 0).centre = some c0) (hc1 : (blk 0 jt nz).centre = some c1) (hdown : c1.z ≤ c0.z)
+    (wx0 : Rat) (wy wz : Nat → Rat)
+    (hvol : (blk 0 0 nz).volume = wx0 * wy 0 * wz nz) (hy0 : wy 0 ≠ 0) (hz0 : wz nz ≠ 0)
+    (hwy : ∀ j, j < ny → distAt (cy 0 j nz) (blk 0 j nz).name = wy j / 2 ∧
+      distAt (cy 0 j nz) (blk 0 (j + 1) nz).name = wy (j + 1) / 2)
+    (hwz : ∀ l, l < nz → distAt (cz 0 jt l) (blk 0 jt l).name = wz l / 2 ∧
+      distAt (cz 0 jt l) (blk 0 jt (l + 1)).name = wz (l + 1) / 2) :
+    blockSpacings T (blk 0 0 nz) mv =
+      .ok ([wx0], (List.range' 0 (ny + 1)).map wy, (List.range' 0 (nz + 1)).map wz) := by
+  have A := L.axisLines 0 jt (by omega) hjt htop c0 c1 hc0 hc1 hdown
+  have sy := rowSizes (fun j => blk 0 j nz) (fun j => cy 0 j nz) wy ny (fun j hj => (hwy j hj).1) (fun j hj => (hwy j hj).2)
+    ny 0 (by omega) (by omega)
+  have sz := rowSizes (fun l => blk 0 jt l) (fun l => cz 0 jt l) wz nz (fun l hl => (hwz l hl).1) (fun l hl => (hwz l hl).2)
+    nz 0 (by omega) (by omega)
+  simp only [prevOf] at sy sz
+  have A' : AxisLines T (blk 0 0 nz) mv [] (rowSteps (fun j => blk 0 j nz) (fun j => cy 0 j nz) 0 ny)
+      (rowSteps (fun l => blk 0 jt l) (fun l => cz 0 jt l) 0 nz) (blk 0 jt 0) := A
+  rw [blockSpacings_2d_x T _ _ mv _ _ A' (rowSteps_ne_nil _ _ ny hy) (rowSteps_ne_nil _ _ nz hz) wx0, sy, sz]
+  rw [sy, sz]
+  apply missing_spacing _ _ _ 2 3 (wy 0) (wz nz) wx0
+  · simp only [ownSpacing, head_map_range']; rfl
+  · simp only [ownSpacing, getLast_map_range']; rfl
+  · exact hy0
+  · exact hz0
+  · rw [hvol]; ring
+
+/-- ... and a single block along direction 2 (`ny = 0`) -/
+theorem blockSpacings_lattice_2d_y {T : TGrid} {mv : Rat} {nx nz : Nat} {blk : Nat → Nat → Nat → GBlock}
+    {cx cy cz : Nat → Nat → Nat → GConn} (L : Lattice T mv nx 0 nz blk cx cy cz)
+    (hx : 0 < nx) (hz : 0 < nz)
+    (it : Nat) (hit : it ≤ nx) (htop : topmostBlock T (some mv) = .ok (blk it 0 0))
+    (c0 c1 : P3) (hc0 : (blk it 0 0).centre = some c0) (hc1 : (blk it 0 nz).centre = some c1) (hdown : c1.z ≤ c0.z)
+    (wy0 : Rat) (wx wz : Nat → Rat)
+    (hvol : (blk 0 0 nz).volume = wx 0 * wy0 * wz nz) (hx0 : wx 0 ≠ 0) (hz0 : wz nz ≠ 0)
+    (hwx : ∀ i, i < nx → distAt (cx i 0 nz) (blk i 0 nz).name = wx i / 2 ∧
+      distAt (cx i 0 nz) (blk (i + 1) 0 nz).name = wx (i + 1) / 2)
+    (hwz : ∀ l, l < nz → distAt (cz it 0 l) (blk it 0 l).name = wz l / 2 ∧
+      distAt (cz it 0 l) (blk it 0 (l + 1)).name = wz (l + 1) / 2) :
+    blockSpacings T (blk 0 0 nz) mv =
+      .ok ((List.range' 0 (nx + 1)).map wx, [wy0], (List.range' 0 (nz + 1)).map wz) := by
+  have A := L.axisLines it 0 hit (by omega) htop c0 c1 hc0 hc1 hdown
+  have sx := rowSizes (fun i => blk i 0 nz) (fun i => cx i 0 nz) wx nx (fun i hi => (hwx i hi).1) (fun i hi => (hwx i hi).2)
+    nx 0 (by omega) (by omega)
+  have sz := rowSizes (fun l => blk it 0 l) (fun l => cz it 0 l) wz nz (fun l hl => (hwz l hl).1) (fun l hl => (hwz l hl).2)
+    nz 0 (by omega) (by omega)
+  simp only [prevOf] at sx sz
+  have A' : AxisLines T (blk 0 0 nz) mv (rowSteps (fun i => blk i 0 nz) (fun i => cx i 0 nz) 0 nx) []
+      (rowSteps (fun l => blk it 0 l) (fun l => cz it 0 l) 0 nz) (blk it 0 0) := A
+  rw [blockSpacings_2d_y T _ _ mv _ _ A' (rowSteps_ne_nil _ _ nx hx) (rowSteps_ne_nil _ _ nz hz) wy0, sx, sz]
+  rw [sx, sz]
+  apply missing_spacing _ _ _ 1 3 (wx 0) (wz nz) wy0
+  · simp only [ownSpacing, head_map_range']; rfl
+  · simp only [ownSpacing, getLast_map_range']; rfl
+  · exact hx0
+  · exact hz0
+  · rw [hvol]; ring
 
 theorem lineBlocks_row (b : Nat → GBlock) (cn : Nat → GConn) :
     ∀ m i, lineBlocks (b i) (rowSteps b cn i m) = (List.range' i (m + 1)).map b := by
